@@ -1566,3 +1566,20 @@ Proof.
   rewrite (E ops Hi). exact Hn.
 Qed.
 Print Assumptions C20_stores_equivalent_new.
+
+(* ------------------------------------------------------------------------------------------------
+   STORECONC: the side condition [leaked r = false] of C20_index_refines_store is discharged for all
+   manager-driven runs: in every reachable state of the manager core (Mgr/Core.v: unique table of
+   Conc.v on this store) the store component of every action of every thread runs inside the
+   refinement -- unconditionally *)
+From OxiVerif Require Mgr.Core Mgr.CoreProofs Mgr.CoreThms.
+
+Theorem C20_core_refines_store : forall k terms nl c s a s' r rs,
+  CoreProofs.kreachable k terms nl c s -> Core.kstep k terms nl c s a = Some (s', r, rs) ->
+  IndexStore.irun c (Core.k_i s) (Core.kstep_ops k terms nl s a) = Some (Core.k_i s', rs) /\
+  IndexStoreProofs.IInv c (Core.k_i s) /\ IndexStoreProofs.IInv c (Core.k_i s') /\
+  RcStore.aruns N N.eqb (IndexStore.iabs (Core.k_i s))
+    (IndexStoreProofs.flat_ops (Core.kstep_ops k terms nl s a) rs)
+    (IndexStoreProofs.flat_res (Core.kstep_ops k terms nl s a) rs) (IndexStore.iabs (Core.k_i s')).
+Proof. exact CoreThms.core_refines_store. Qed.
+Print Assumptions C20_core_refines_store.
